@@ -265,6 +265,30 @@ theorem good_valueInnerSet {R h} (s : St R h) (p i j : Nat) (str : String) (hp :
     · rename_i hlt
       exact good_listInnerSet s c i j str (vals_in s hp hl hk hv) (by omega)
 
+/-- A step that writes no object, value list or inner list (a dict is allocated or written). -/
+theorem good_same {R h h'} (s : St R h) (hn : h'.node = h.node) (hv : h'.vcell = h.vcell)
+    (ht : h'.tcell = h.tcell) (eN : h'.nN = h.nN) (eV : h'.nV = h.nV) (eT : h'.nT = h.nT)
+    (eI : h.nextId ≤ h'.nextId) : Good R h h' := by
+  refine ⟨⟨by omega, by omega, by omega, eI⟩, ⟨fun a _ => by rw [hn], fun a _ => by rw [hv], fun a _ => by rw [ht]⟩,
+    ⟨⟨fun a ha hl => ?_, fun a ha hl => ?_⟩, ⟨fun a ha => s.future.1 a (by omega), fun a ha => s.future.2.1 a (by omega),
+      fun a ha => s.future.2.2 a (by omega)⟩⟩⟩
+  · rw [hn]; exact s.closed.1 a ha (by omega)
+  · rw [hv]; exact s.closed.2 a ha (by omega)
+
+theorem good_allocD {R h} (s : St R h) (l : List (Nat × String)) : Good R h (allocD h l).1 :=
+  good_same s rfl rfl rfl rfl rfl rfl (Nat.le_refl _)
+
+theorem good_updD {R h} (s : St R h) (i : Nat) (f) : Good R h (updD h i f) :=
+  good_same s rfl rfl rfl rfl rfl rfl (Nat.le_refl _)
+
+theorem nodeIn_mattrs {R n} (hn : NodeIn R n) (d : Nat) : NodeIn R { n with mattrs := d } := hn
+theorem nodeIn_merged {R n} (hn : NodeIn R n) (m : Option Nat) : NodeIn R { n with merged := m } := hn
+
+theorem good_initRecord {R h} (s : St R h) (x : Nat) (hx : R.n x) : Good R h (initRecord h x) := by
+  unfold initRecord
+  have g1 := good_allocD s []
+  exact g1.trans (good_updN g1.st x _ hx (fun _ hn => nodeIn_mattrs hn _))
+
 theorem good_newObj {R h} (s : St R h) (k : Kind) (name : String) (attrs : List String) (vals : List Lit) :
     Good R h (newObj h k name attrs vals).1 := by
   unfold newObj
@@ -272,12 +296,76 @@ theorem good_newObj {R h} (s : St R h) (k : Kind) (name : String) (attrs : List 
   have s0 : St R { h with nextId := h.nextId + 1 } := ⟨s.closed, s.future⟩
   have g0 : Good R h { h with nextId := h.nextId + 1 } :=
     ⟨⟨Nat.le_refl _, Nat.le_refl _, Nat.le_refl _, Nat.le_succ _⟩, ⟨fun _ _ => rfl, fun _ _ => rfl, fun _ _ => rfl⟩, s0⟩
-  have g1 := good_allocN s0 (Node.mk k name h.nextId attrs none [] [] none none)
+  have g1 := good_allocN s0 (Node.mk k name h.nextId attrs none [] [] none none 0)
     ⟨fun _ p hp => by simp at hp, fun _ c hc => by simp at hc, fun _ c hc => by simp at hc,
      fun _ c hc => by simp at hc⟩
   split
   · exact (g0.trans g1).trans (good_set g1.st (setValuesLits_spec _ _ vals) (s.future.1 _ (Nat.le_refl _)))
-  · exact g0.trans g1
+  · split
+    · exact (g0.trans g1).trans (good_initRecord g1.st _ (s.future.1 _ (Nat.le_refl _)))
+    · exact g0.trans g1
+
+theorem good_fillAttr {R h} (s : St R h) (x t d k : Nat) (hx : R.n x) : Good R h (fillAttr h x t d k) := by
+  unfold fillAttr
+  split
+  · rename_i v _ _
+    have g1 := good_updN s x (fun n => { n with attrs := n.attrs.set k v }) hx (fun _ hn => nodeIn_attrs hn _)
+    exact g1.trans (good_updD g1.st _ _)
+  · exact Good.refl s
+
+theorem good_takeBack {R} (x : Nat) (hx : R.n x) : ∀ (l : List (Nat × String)) (h : H), St R h →
+    Good R h (takeBack h x l) := by
+  intro l
+  induction l with
+  | nil => intro h s; exact Good.refl s
+  | cons kv rest ih =>
+    intro h s
+    obtain ⟨k, v⟩ := kv
+    simp only [takeBack]
+    split
+    · have g1 := good_updN s x (fun n => { n with attrs := n.attrs.set k "None" }) hx (fun _ hn => nodeIn_attrs hn _)
+      exact g1.trans (ih _ g1.st)
+    · exact ih _ s
+
+theorem good_mergeAttrs {R h} (s : St R h) (x t : Nat) (record : Bool) (hx : R.n x) :
+    Good R h (mergeAttrs h x t record) := by
+  unfold mergeAttrs
+  simp only
+  have g1 := good_allocD s (recOf h x)
+  have g2 := good_fillAttr g1.st x t (allocD h (recOf h x)).2 defAttr hx
+  have g3 := good_fillAttr g2.st x t (allocD h (recOf h x)).2 refAttr hx
+  have g13 := g1.trans (g2.trans g3)
+  cases record with
+  | false => simpa using g13
+  | true =>
+    simp only [if_true]
+    have g4 := good_updN g13.st x (fun n => { n with mattrs := (allocD h (recOf h x)).2 }) hx
+      (fun _ hn => nodeIn_mattrs hn _)
+    have g5 := good_updN g4.st x (fun n => { n with merged := some t }) hx (fun _ hn => nodeIn_merged hn _)
+    exact g13.trans (g4.trans g5)
+
+theorem good_unmergeAttrs {R h} (s : St R h) (x : Nat) (hx : R.n x) : Good R h (unmergeAttrs h x) := by
+  unfold unmergeAttrs
+  simp only
+  have g1 := good_takeBack x hx (recOf h x) h s
+  have g2 := good_allocD g1.st []
+  have g3 := good_updN g2.st x (fun n => { n with mattrs := (allocD (takeBack h x (recOf h x)) []).2 }) hx
+    (fun _ hn => nodeIn_mattrs hn _)
+  have g4 := good_updN g3.st x (fun n => { n with merged := none }) hx (fun _ hn => nodeIn_merged hn _)
+  exact g1.trans (g2.trans (g3.trans g4))
+
+theorem good_mergeOp {R h} (s : St R h) (x t : Nat) (record : Bool) (hx : R.n x) :
+    Good R h (mergeOp h x t record).1 := by
+  unfold mergeOp
+  split
+  · exact Good.refl s
+  · exact good_mergeAttrs s x t record hx
+
+theorem good_unmergeOp {R h} (s : St R h) (x : Nat) (hx : R.n x) : Good R h (unmergeOp h x).1 := by
+  unfold unmergeOp
+  split
+  · exact Good.refl s
+  · exact good_unmergeAttrs s x hx
 
 theorem good_setChildList {R h} (s : St R h) (p : Nat) (b : Bool) (f : List Nat → List Nat) (hp : R.n p)
     (hf : ∀ l : List Nat, (∀ c, c ∈ l → R.n c) → ∀ c, c ∈ f l → R.n c) :
